@@ -102,7 +102,7 @@ def check_generated(ctx, n, tmp):
 def read_csv_raw(path):
     with open(path, newline="", encoding="utf-8-sig") as f:
         rows = list(csv.reader(f))
-    return rows[0], rows[1:]
+    return rows[0], [r for r in rows[1:] if r]   # blank lines are not datapoints
 
 
 def check_corpus(ctx, n, tmp):
